@@ -41,23 +41,60 @@ def record(ctx, binary, nruns, tag, env=None):
     for r in recs:
         if r["kind"] == "mismatch":
             ctx.violation(r["sig"], r["detail"])
-    ok, bad, why = vlib.validate_trace(ctx, "EMTrace", "EMTrace.cfg", "em_trace.ndjson", trace, timeout=1800,
-                                       label="emtrace-" + tag)
     runs = [r for r in recs if r["kind"] == "em_run"]
-    if not ok:
-        events = vlib.read_ndjson(trace)
+    events = vlib.read_ndjson(trace)
+    # validate; after a rejection the offending unit (one EM run, or one numeric event) is reported, taken out and
+    # the REST of the trace is validated again, so that one finding does not leave thousands of events unexamined
+    alive = list(range(len(events)))          # indices into events still in the trace
+    all_ok = True
+    for attempt in range(12):
+        cur = ctx.path("em_trace-%s-%d.ndjson" % (tag, attempt))
+        with open(cur, "w") as f:
+            for i in alive:
+                f.write(json.dumps(events[i]) + "\n")
+        ok, bad, why = vlib.validate_trace(ctx, "EMTrace", "EMTrace.cfg", "em_trace.ndjson", cur, timeout=1800,
+                                           label="emtrace-%s-%d" % (tag, attempt))
+        # numeric runs that break the contract are consumed by the named deviation action and printed
+        devs = sorted(set(int(x) for x in __import__("re").findall(r'"NUMERIC_DEVIATION", (\d+)', open(ctx.last_trace_log).read())))
+        for pos in devs:
+            if pos - 1 < len(alive):
+                ev = events[alive[pos - 1]]
+                what = "error_on_well_posed_problem" if ev.get("err") else ("start_returned_without_error" if ev.get("unmoved") else "not_stationary")
+                fam = ev.get("family", "?")
+                ctx.violation({"engine": "estim", "what": what, "scenario": fam, "start": ev.get("start", ""),
+                               "method": fam.rsplit("-", 1)[-1] if fam.startswith("numeric-") else ""},
+                              {"mode": "numeric", "rejected_event": ev, "reason": "NumericDeviation (EMTrace.tla)",
+                               "replay_note": "ESTIM_NUMDEBUG=1 estim record prints parameters and gradient of every numeric run"})
+        if ok:
+            break
+        all_ok = False
+        if not bad or bad > len(alive):
+            raise vlib.Infra("EM trace rejected without a position: %s" % why)
+        gi = alive[bad - 1]                    # index of the rejected event in the full trace (0-based)
+        ev = events[gi]
         run = None
         for r in runs:
-            if r["first_event"] <= (bad or 1) < r["first_event"] + r["events"]:
+            if r["first_event"] - 1 <= gi < r["first_event"] - 1 + r["events"]:
                 run = r
-        ev = events[(bad or 1) - 1] if bad and bad <= len(events) else None
-        first = run["first_event"] if run else 1
-        ctx.violation({"engine": "estim", "what": "trajectory_rejected", "scenario": run["scenario"] if run else "?"},
-                      {"mode": "em", "scenario": run and run["scenario"], "seed": run and run["seed"],
-                       "eps_index": run and run["eps_index"], "maxsteps": run and run["maxsteps"],
-                       "rejected_event": ev, "index_in_run": (bad or 0) - first + 1, "reason": why,
-                       "run_events": events[first - 1:first - 1 + (run["events"] if run else 30)][:60]})
-    return ok, trace, runs
+        if run is not None:
+            first = run["first_event"] - 1
+            ctx.violation({"engine": "estim", "what": "trajectory_rejected", "scenario": run["scenario"]},
+                          {"mode": "em", "scenario": run["scenario"], "seed": run["seed"],
+                           "eps_index": run["eps_index"], "maxsteps": run["maxsteps"],
+                           "rejected_event": ev, "index_in_run": gi - first + 1, "reason": why,
+                           "run_events": events[first:first + run["events"]][:60]})
+            drop = set(range(first, first + run["events"]))
+        else:
+            what = "error_on_well_posed_problem" if ev.get("err") else ("start_returned_without_error" if ev.get("unmoved") else "not_stationary")
+            ctx.violation({"engine": "estim", "what": what, "scenario": ev.get("family", "?"), "start": ev.get("start", ""),
+                           "method": ev.get("family", "").rsplit("-", 1)[-1] if ev.get("family", "").startswith("numeric-") else ""},
+                          {"mode": "numeric", "rejected_event": ev, "reason": why,
+                           "replay_note": "ESTIM_NUMDEBUG=1 estim record prints parameters and gradient of every numeric run"})
+            drop = {gi}
+        alive = [i for i in alive if i not in drop]
+    else:
+        raise vlib.Infra("EM trace still rejected after 12 reported units")
+    return all_ok, trace, runs
 
 
 def run(ctx):
@@ -108,7 +145,19 @@ def run(ctx):
             ok2, _, _ = vlib.validate_trace(ctx, "EMTrace", "EMTrace.cfg", "em_trace.ndjson", bt, label="selftest")
             if ok2:
                 raise vlib.Infra("vacuous binding: corrupted trajectory accepted (%s)" % name)
-        ctx.extra["binding_selftest"] = "decreasing likelihood rejected; lying hook rejected"
+        # the named deviation action must fire on a non-stationary numeric event and on an error of a well-posed run
+        import re as _re
+        for name, evn in (("non-stationary result", {"gnorm": 2000000000, "err": False}), ("error on a well-posed problem", {"gnorm": 0, "err": True})):
+            bt = ctx.path("em_trace-numeric-selftest.ndjson")
+            e0 = {"e": "numeric", "family": "numeric-normal-rprop", "sparse": False, "cw": 0, "n": 10, "seed": 0,
+                  "wellposed": True, "unmoved": False, "start": "near"}
+            e0.update(evn)
+            with open(bt, "w") as f:
+                f.write(json.dumps(e0) + "\n")
+            vlib.validate_trace(ctx, "EMTrace", "EMTrace.cfg", "em_trace.ndjson", bt, label="selftest-numeric")
+            if not _re.search(r'"NUMERIC_DEVIATION", 1', open(ctx.last_trace_log).read()):
+                raise vlib.Infra("vacuous binding: numeric deviation not reported (%s)" % name)
+        ctx.extra["binding_selftest"] = "decreasing likelihood rejected; lying hook rejected; non-stationary numeric result and error on a well-posed numeric problem reported as deviations"
         # vacuity: every scenario completed at least once without error, every twin relation was observed
         per = {}
         for r in runs:
@@ -175,7 +224,7 @@ MANIFEST = {
     "text": "TLC enumerates every small weighted data multiset, checks the score equations on the model and prints the exact MLE; the "
             "real estimators must return it in every calling mode and bound setting (plus a perturbation re-check); recorded EM and "
             "Baum-Welch trajectories must be monotone, report the likelihood of the entering model, pass the documented epsilon and "
-            "obey the stop rule. Bounded data grid; numeric estimators are outside the contract.",
+            "obey the stop rule. Bounded data grid; numeric estimators (logistic regression, NumericEstimator) are held to stationarity of the recomputed gradient.",
     "note": "Trusted: TLC, Json module, Rat.tla, the distributions' LogPdf used for the recomputed likelihood and the perturbation test.",
     "design_ref": "DESIGN.md section 5 (C16)",
 }
